@@ -48,7 +48,10 @@ def trace_of(row):
     v, b = row["vec"], row["obs"]
     lines = [{"ev": "begin", "cfg": cfg_of(v), "id": row["id"]}]
     lines += [{"ev": e["ev"], "stage": e["stage"], "idx": e["idx"]} for e in b["events"]]
-    lines.append({"ev": "ret", "err": b["iserr"], "order": b["order"]})
+    ret = {"ev": "ret", "err": b["iserr"], "order": b["order"]}
+    if b.get("unknown_return"):
+        ret["unknown"] = True
+    lines.append(ret)
     return lines
 
 
